@@ -104,7 +104,8 @@ def gen(rng: random.Random, k: int, tier: str) -> dict:
         backends[0] = "numpy"
     cfg = {"backends": backends, "precs": rng.choice([["64b"], ["64b", "32b"], ["64b", "32b"]]),
            "codes": rng.sample(CODES, rng.randint(1, 5)), "len": rng.randint(6, 40) * (3 if deep else 1),
-           "switch_w": rng.choice([0.0, 0.5, 1.5, 3.0]), "fault_rate": rng.choice([0.0, 0.1, 0.3])}
+           "switch_w": rng.choice([0.0, 0.5, 1.5, 3.0]), "fault_rate": rng.choice([0.0, 0.1, 0.3]),
+           "reuse": rng.random() < 0.4}   # the caller keeps one alpha tensor per instance and updates it in place
     ops, live, nextid = [], {}, 0
     a0s = {}
     codes = {}
@@ -157,6 +158,8 @@ def gen(rng: random.Random, k: int, tier: str) -> dict:
                             row[j] = rng.choice([b, float(np.nextafter(np.float64(b), math.inf)), float(np.nextafter(np.float64(b), -math.inf)),
                                                  float(np.nextafter(np.float32(b), np.float32(math.inf))), float(np.nextafter(np.float32(b), np.float32(-math.inf)))])
             ops.append({"op": "call", "id": oid, "alphas": al})
+            if cfg["reuse"] and rng.random() < 0.6:
+                ops[-1]["reuse"] = True
             budget -= COST[cur]
         elif kind == "callmany":
             # instances of one code with the same number of systematics, same alpha-set shape, evaluated back to back
@@ -312,8 +315,28 @@ class World:
         def call(f):
             return np.asarray(tl.tolist(f(tl.astensor(al))), dtype=np.float64)
 
+        def call_reusing_buffer(f):
+            # a parameter scan that updates ONE tensor object in place and hands it in again (numpy / pytorch)
+            buf = o.get("buf")
+            if buf is None or tuple(tl.shape(buf)) != shape or o.get("buf_reg") != self.reg:
+                buf = tl.astensor(al)
+            elif self.reg[0] == "numpy":
+                buf[...] = al
+                ctx.probe("alpha_buffer_reused")
+            elif self.reg[0] == "pytorch":
+                import torch
+
+                buf.copy_(torch.as_tensor(al, dtype=buf.dtype))
+                ctx.probe("alpha_buffer_reused")
+            else:
+                buf = tl.astensor(al)     # immutable tensors: a new object every time
+            o["buf"], o["buf_reg"] = buf, self.reg
+            return np.asarray(tl.tolist(f(buf)), dtype=np.float64)
+
         try:
-            if pre is None:
+            if pre is None and op.get("reuse"):
+                got = call_reusing_buffer(o["obj"])
+            elif pre is None:
                 got = call(o["obj"])
             elif pre[0] == "exc":
                 raise pre[1]
